@@ -39,8 +39,10 @@ def main(argv):
                     ops.append(['trim', rng.random() < 0.3])
                 elif j < 0.9:
                     ops.append(['setlines', [G.rand_str(rng) for _ in range(rng.randint(0, 3))]])
-                else:
+                elif j < 0.97:
                     ops.append(['indent', G.rand_indcfg(rng)])
+                else:
+                    ops.append(['indent_again'])
             cases.append(T.c_hist(c, h, ops))
         elif k < 0.8:
             if rng.random() < 0.5:
